@@ -242,6 +242,28 @@ def _rotations(ctx, cfg):
     ctx.eq_arrays("layout/rotate_rho/explicit rho that is a window of a larger buffer == U rho U^dagger", U.cdec(unitaries.rotate_rho(dm, basis, space, rho=rho_sl)._arr), UrU, z3_confirm=False)
     ctx.holds("layout/input-not-written", psi_nc._stor.version == 0 and rho_nc._stor.version == 0 and rho_sl._stor.version == 0)
 
+    # ---- explicit states of another element type (single precision, integers): the rotation is that of the values the
+    # tensor holds, computed in double precision with the unitaries as they are
+    for tname, dt in (("float32", torch.float32), ("int64", torch.int64)):
+        p32 = psi_t.to(dt)
+        r32 = rho_t.to(dt)
+        pc32, rc32 = U.cdec(p32._arr), U.cdec(r32._arr)
+        try:
+            ctx.eq_arrays("dtype/rotate_psi/explicit %s psi == U psi" % tname, U.cdec(unitaries.rotate_psi(cw, basis, space, psi=p32)._arr), U.matvec(Ud, pc32), z3_confirm=False)
+            ctx.eq_arrays("dtype/rotate_rho/explicit %s rho == U rho U^dagger" % tname, U.cdec(unitaries.rotate_rho(dm, basis, space, rho=r32)._arr),
+                          U.matmat(U.matmat(Ud, rc32), Udag), z3_confirm=False)
+            order32 = list(range(D))[::-1]
+            b32 = space[order32].clone()
+            a32 = unitaries.rotate_psi_inner_prod(cw, basis, b32, psi=p32)
+            want_a = U.matvec(Ud, pc32)
+            for b_, k_ in enumerate(order32):
+                ctx.eq("dtype/rotate_psi_inner_prod/explicit %s psi == (U psi)[index][b=%d]" % (tname, b_), st._obj(a32)[0, b_] + I * st._obj(a32)[1, b_], want_a[k_], z3_confirm=False)
+            q32 = unitaries.rotate_rho_probs(dm, basis, b32, rho=r32)
+            want_q = U.matmat(U.matmat(Ud, rc32), Udag)
+            for b_, k_ in enumerate(order32):
+                ctx.eq("dtype/rotate_rho_probs/explicit %s rho == Re (U rho U^dagger)[index,index][b=%d]" % (tname, b_), st._obj(q32)[b_], alg.re(want_q[k_, k_]), z3_confirm=False)
+        except alg.Unmodelled as e:
+            ctx.undecided("dtype/explicit %s states" % tname, str(e)[:200])
     # ---- rotated amplitudes / probabilities of a batch of outcomes (repeats, any order)
     # (also a batch of exactly 2^n rows that is NOT the ordered basis: the number of rows says nothing about their content)
     orders = [("", list(range(D))[::-1] + [0, D - 1, 0]), ("2^n-rows/", (list(range(1, D))[::-1] + [D - 1]) if D > 1 else [0])]
